@@ -1295,6 +1295,14 @@ def ctor_calls_to_aggregates(body):
                                   'rv': {'r': 'agg', 'kind': 'adt', 'adt': c['adt'], 'variant': c['variant'], 'vidx': c['vidx'], 'fields': c['fields'],
                                          'is_enum': c['is_enum'], 'ops': t['args']}}]
             b['term'] = {'t': 'goto', 'to': t['to']}
+        if t['t'] == 'drop' and t.get('ws_drop') and not b['cleanup']:
+            # dropping a value whose type has a hand-written workspace `Drop` impl runs that impl: not followed -> a leaf call the model
+            # reports as an opaque effect
+            tmp = len(body['locals'])
+            body['locals'].append('()')
+            b['term'] = {'t': 'call', 'callee': 'WS_DROP ' + str(body['locals'][t['pl']['l']])[:80], 'cdef': 'core::ops::Drop::drop', 'leaf': True, 'crate': 'core',
+                         'closure_call': False, 'self_adt': '', 'closures': [], 'args': [{'k': 'move', 'pl': t['pl']}], 'argtys': [body['locals'][t['pl']['l']]],
+                         'dest': {'l': tmp}, 'to': t['to'], 'at': t.get('at'), 'ws_iter': True}
     for pb in body.get('promoted', []):
         if 'blocks' in pb:
             ctor_calls_to_aggregates(pb)
